@@ -87,7 +87,7 @@ func (d orderDomain) interior(i ival, q int) bool {
 		return d.member(i, q-1) && d.member(i, q) && d.member(i, q+1)
 	}
 	n := d.top // positions 0..top-1 are distinct, top == 0
-	prev := ((q%n)+n-1)%n
+	prev := ((q % n) + n - 1) % n
 	next := (q + 1) % n
 	return d.member(i, prev) && d.member(i, q) && d.member(i, next)
 }
